@@ -21,7 +21,7 @@ func HarnessC12Sink() {
 	p := svPick("parts", maxp+1)
 	e := svPick("embeds", maxe+1)
 	a := svPick("atts", maxa+1)
-	me := hxEnc(svPick("menc", 3))
+	me := hxEnc(svPick("menc", svParam("mencs", 3)))
 	fe := hxEnc(svPick("fenc", svParam("fencs", 1)))
 	m0 := hxBuildShape(p, e, a, me, fe)
 	w0 := &hxRecW{}
